@@ -205,6 +205,25 @@ func shapesMenu(w *world.World, o menuOpts) []world.Action {
 			}
 		}
 	}
+	// plain transfers (no attached call, so no gas travels with the tokens) under every call type,
+	// to a user and to a non-payable contract of the other shard
+	for _, ct := range []vmcommon.CallType{vmcommon.AsynchronousCall, vmcommon.AsynchronousCallBack, vmcommon.ESDTTransferAndExecute} {
+		for _, to := range [][]byte{uni.C1, uni.S1c} {
+			for _, from := range [][]byte{uni.A0, uni.S0} {
+				var plain []world.Action
+				if held(w, from, tF) > 0 {
+					plain = append(plain, uni.ESDTTransfer(from, to, uni.F, 1), uni.Multi(from, to, []uni.Ent{{Tok: uni.F, Nonce: 0, Q: 1}}))
+				}
+				if held(w, from, tS1) > 0 {
+					plain = append(plain, uni.NFTTransfer(from, to, uni.S, 1, 1), uni.Multi(from, to, []uni.Ent{{Tok: uni.S, Nonce: 1, Q: 1}}))
+				}
+				for _, a := range plain {
+					a.CallType = ct
+					acts = append(acts, a)
+				}
+			}
+		}
+	}
 	acts = append(acts, deliveries(w)...)
 	return acts
 }
